@@ -39,16 +39,29 @@ use std::{
     path::{Path, PathBuf},
 };
 
+#[cfg(test)]
 use once_cell::sync::Lazy;
+use once_cell::sync::OnceCell;
 use rustix::{
     fs::{self as rustix_fs, Access, AtFlags},
     mount::{FsMountFlags, FsOpenFlags, MountAttrFlags, OpenTreeFlags},
 };
 
 /// A `procfs` handle to which is used globally by libpathrs.
-// MSRV(1.80): Use LazyLock.
-pub(crate) static GLOBAL_PROCFS_HANDLE: Lazy<ProcfsHandle> =
-    Lazy::new(|| ProcfsHandle::new().expect("should be able to get some /proc handle"));
+static GLOBAL_PROCFS_CELL: OnceCell<ProcfsHandle> = OnceCell::new();
+
+/// Get the global `procfs` handle, creating it on first use.
+///
+/// Creating the handle can fail for reasons that are not fatal to the process
+/// (running out of file descriptors, for instance), so the failure is returned
+/// to the caller and the creation is attempted again on the next use.
+pub(crate) fn global_procfs_handle() -> Result<&'static ProcfsHandle, Error> {
+    GLOBAL_PROCFS_CELL.get_or_try_init(ProcfsHandle::new)
+}
+
+#[cfg(test)]
+pub(crate) static GLOBAL_PROCFS_HANDLE: Lazy<&'static ProcfsHandle> =
+    Lazy::new(|| global_procfs_handle().expect("should be able to get some /proc handle"));
 
 /// Indicate what base directory should be used when doing `/proc/...`
 /// operations with a [`ProcfsHandle`].
